@@ -10,7 +10,8 @@ import os
 from .. import tlc, wtree
 
 ENCS = ["utf8", "wide", "narrow"]
-NONASCII_TEXTS = {"cjk", "cjk1", "acjk", "comb", "comb0", "dec", "mixed", "mk2"}
+NONASCII_TEXTS = {"cjk", "cjk1", "acjk", "comb", "comb0", "dec", "mixed", "mk2", "nlw", "nlwb", "nlz"}
+MULTILINE_TEXTS = {"nl", "nlw", "nlwb", "nlz"}
 ENC_SENSITIVE_KINDS = {"LineBox", "BigText", "ProgressBar", "BarGraph", "ScrollBar", "CheckBox", "RadioButton", "Button"}
 
 GEN_CFG = """CONSTANTS Profile = "{profile}" LeafSet = "{leaf}" MaxDepth = {d} MaxKids = {kids} SibDepth = {sib} MaxNodes = {nodes} Sim = {sim} Kinds = "{kinds}"
@@ -32,9 +33,9 @@ def _plain(o):
     return o
 
 
-def enumerate_terms(chk, name, **kw):
+def enumerate_terms(chk, name, workers=6, **kw):
     kw.setdefault("kinds", "all")
-    states, r = tlc.dump_states("WidgetTree", GEN_CFG.format(sim="FALSE", **kw), workers=6, timeout=1500)
+    states, r = tlc.dump_states("WidgetTree", GEN_CFG.format(sim="FALSE", **kw), workers=workers, timeout=1500)
     chk.add_mc(name, r)
     seen, terms = set(), []
     for s in states:
@@ -116,7 +117,33 @@ def observe_term(job):
     return tr
 
 
-ZW_IDS = {"comb", "comb0", "mixed"}
+def observe_history(job):
+    """Runs in a worker process: one history with held canvases (wtree.observe_frames) of the term at one size it supports."""
+    import random
+
+    t, enc, cols, rows, max_sub, seed = job
+    wtree.set_enc(enc)
+    wd = wtree.World()
+    tr = {"term": t, "enc": enc, "build_exc": "", "sizing": [], "ev": [], "hist": {"max_sub": max_sub, "seed": seed}}
+    try:
+        w = wd.build(t, enc)
+        modes = sorted(str(getattr(m, "value", m)) for m in w.sizing())
+    except Exception as ex:  # noqa: BLE001
+        tr["build_exc"] = f"{type(ex).__name__}: {str(ex)[:120]}"
+        return tr
+    tr["sizing"] = modes
+    rng = random.Random(seed)
+    sizes = wtree.sizes_for(modes, cols, rows)
+    if not sizes:
+        return tr
+    size = rng.choice(sizes)
+    focus = rng.random() < 0.7
+    tr["hist"].update(size=list(size), focus=1 if focus else 0)
+    tr["ev"] = wtree.observe_frames(t, w, size, focus, enc, max_sub, seed)
+    return tr
+
+
+ZW_IDS = {"comb", "comb0", "mixed", "nlz"}
 AMB_IDS = {"dec", "mixed"}          # contain East Asian Ambiguous characters (box drawing)
 
 
@@ -178,6 +205,24 @@ def features(t, enc, e):
     m["m_padding_margins_use_all_cols"] = 0 < e.get("c", 0) <= 3 and any(x["k"] == "Padding" and x["o"][3] + x["o"][4] >= e.get("c", 0) for x in subs)
     m["m_scrollable_zero_size"] = any(x["k"] == "Scrollable" for x in subs) and (
         msg == "0" or "cannot trim" in msg or "trim shards out of existence" in msg)
+    # precise form of "the fixed top widget of an Overlay(width='pack') does not fit" (the real top widget's pack() against the size of the event):
+    # zero-sized top, or wider than the columns of the event (a nested overlay has at most as many), or - for the root - taller than its rows
+    def top_exceeds(st, sw, is_root):
+        try:
+            tw, th = sw.top_w.pack((), bool(e.get("focus")))
+        except Exception:  # noqa: BLE001
+            return False
+        left, right, top, bottom = st["o"][6:10]
+        if tw <= 0 or th <= 0:
+            return True
+        if e.get("mode") in ("box", "flow") and tw + left + right > e.get("c", 0):
+            return True
+        return bool(is_root and e.get("mode") == "box" and th + top + bottom > e.get("r", 0))
+
+    m["m_overlay_fixed_top_exceeds"] = any(st["k"] == "Overlay" and st["o"][1] == "pack" and top_exceeds(st, sw, i == 0) for i, (st, sw) in enumerate(pairs))
+    # a LineBox with a title around a ListBox: at a width too narrow for the title the title line wraps and the body gets no rows
+    m["m_linebox_title_over_listbox"] = msg.startswith("Invalid offset_inset") and any(
+        x["k"] == "LineBox" and x["o"][0] != "empty" and "ListBox" in wtree.kinds(x) for x in subs)
     cur = e.get("cur") or []
     m["m_cursor_below"] = len(cur) == 2 and 0 <= cur[0] < e.get("cc", 0) and cur[1] >= e.get("cr", 0)
     m["m_cursor_side"] = len(cur) == 2 and not (0 <= cur[0] < e.get("cc", 0)) and 0 <= cur[1] < e.get("cr", 0)
@@ -200,12 +245,31 @@ def _handle(chk, traces, res):
         if why.startswith("div_"):
             chk.divergence(why[4:], {"term": wtree.show(tr["term"]), "got": e.get("got")})
             continue
-        sig = features(tr["term"], tr["enc"], e)
+        hist = tr.get("hist")
+        if hist:
+            # a rendering inside a history is described by the widget that was rendered (sub-term) and, for a re-measured held
+            # canvas, by the rendering that returned it
+            src = tr["ev"][e["ref"] - 1] if e["t"] == "held" and 1 <= e.get("ref", 0) <= len(tr["ev"]) else e
+            sig = features(wtree.subterm(tr["term"], src.get("path", [])), tr["enc"], dict(src, exc=e.get("exc", "")))
+            sig["hist_op"] = src.get("op", "")
+        else:
+            sig = features(tr["term"], tr["enc"], e)
         obs = {k: v for k, v in e.items() if k != "content"}
         obs["content_widths"] = [sum(r) for r in e.get("content", [])]
         verdict = chk.reject(f"C01.{why}", sig, {"term": tr["term"], "show": wtree.show(tr["term"]), "enc": tr["enc"], "cols": tr["cols"], "rows": tr["rows"],
-                                                 "event_index": l + tr.get("skipped", 0), "observed": obs})
-        if verdict == "known" and l < len(tr["ev"]):
+                                                 "event_index": l + tr.get("skipped", 0), "observed": obs, "hist": hist or 0})
+        if verdict == "known" and hist and l < len(tr["ev"]):
+            # events of a history refer to each other by number: keep them all, mark what was already reported (and the same
+            # exception of the same widget in the same mode later on) as skipped
+            def same(x):
+                return bool(e.get("exc")) and x.get("exc") == e["exc"] and x.get("mode") == e.get("mode") and x.get("path") == e.get("path")
+
+            rest = dict(tr)
+            rest["ev"] = [dict(x, skip=1) if (i < l or same(x)) else x for i, x in enumerate(tr["ev"])]
+            chk.count("masked_same_exception_after_known_finding", sum(1 for x in tr["ev"][l:] if same(x)))
+            if any(not x.get("skip") for x in rest["ev"]):
+                cont.append(rest)
+        elif verdict == "known" and l < len(tr["ev"]):
             # continue after the known defect; further events where the same call raises the same exception in the same
             # mode are the same defect at another size and are not re-submitted (counted as masked)
             rest = dict(tr)
@@ -230,10 +294,17 @@ def validate_all(chk, built, jobs, name="TV_RenderTrace"):
     return first
 
 
+def stratum(t):
+    """Sampling stratum of a term: its root kind; multi-line Texts (the fixed size is that of the widest line) form their own."""
+    if t["k"] == "Text" and t["o"][0] in MULTILINE_TEXTS:
+        return "Text.multiline"
+    return t["k"]
+
+
 def stratified(rng, terms, per_kind, special):
     by = {}
     for t in terms:
-        by.setdefault(t["k"], []).append(t)
+        by.setdefault(stratum(t), []).append(t)
     out = []
     for k in sorted(by):
         n = special.get(k, per_kind)
@@ -241,11 +312,11 @@ def stratified(rng, terms, per_kind, special):
     return out
 
 
-def observe_all(jobs, procs):
+def observe_all(jobs, procs, fn=observe_term):
     if procs <= 1 or len(jobs) < 50:
-        return [observe_term(j) for j in jobs]
+        return [fn(j) for j in jobs]
     with cf.ProcessPoolExecutor(procs) as ex:
-        return list(ex.map(observe_term, jobs, chunksize=max(1, len(jobs) // (procs * 8))))
+        return list(ex.map(fn, jobs, chunksize=max(1, len(jobs) // (procs * 8))))
 
 
 def run(chk):
@@ -258,16 +329,24 @@ def run(chk):
     rows = [1, 2, 3, 5] if quick else list(range(1, 6))
 
     # ---- TLC enumerates the configuration space ----------------------------------------------------
-    leaves = enumerate_terms(chk, "GEN_leaves_full", profile="full", leaf="full", d=0, kids=0, sib=0, nodes=1)
-    d1 = enumerate_terms(chk, "GEN_depth1_tiny", profile="tiny", leaf="tiny", d=1, kids=2, sib=0, nodes=8)
-    d1 += enumerate_terms(chk, "GEN_scroll_depth2", profile="rep", leaf="tiny", d=2, kids=1, sib=0, nodes=4, kinds="scroll")
+    # (independent TLC runs overlap, two workers each: JVM start-up dominates these small models)
+    def overclaim():
+        return tlc.mc("WidgetTree", GEN_CFG.format(sim="FALSE", profile="tiny", leaf="tiny", d=1, kids=2, sib=0, nodes=8, kinds="all")
+                      .replace("INVARIANT TypeOK\nINVARIANT SizingLaws\n", "INVARIANT NoOverClaim\n"), workers=2, timeout=900)
+
+    with cf.ThreadPoolExecutor(3) as ex:
+        f_leaves = ex.submit(enumerate_terms, chk, "GEN_leaves_full", workers=2, profile="full", leaf="full", d=0, kids=0, sib=0, nodes=1)
+        f_d1 = ex.submit(enumerate_terms, chk, "GEN_depth1_tiny", workers=2, profile="tiny", leaf="tiny", d=1, kids=2, sib=0, nodes=8)
+        f_scroll = ex.submit(enumerate_terms, chk, "GEN_scroll_depth2", workers=2, profile="rep", leaf="tiny", d=2, kids=1, sib=0, nodes=4, kinds="scroll")
+        f_over = ex.submit(overclaim)
+        leaves, d1, over = f_leaves.result(), f_d1.result() + f_scroll.result(), f_over.result()
     deep = []
     if quick:
-        leaves_run = stratified(rng, leaves, 14, {"Text": 110, "Edit": 70})
+        leaves_run = stratified(rng, leaves, 14, {"Text": 100, "Text.multiline": 40, "Edit": 70})
         sims = simulate_terms(chk, 400, chk.seed, 9, 4, profile="full", leaf="full", d=3, kids=3, sib=2, nodes=9)
     else:
         scale = float(os.environ.get("VERIF_SCALE", "1"))
-        leaves_run = leaves if scale >= 1 else stratified(rng, leaves, 30, {"Text": 150, "Edit": 100})
+        leaves_run = leaves if scale >= 1 else stratified(rng, leaves, 30, {"Text": 150, "Text.multiline": 60, "Edit": 100})
         deep = enumerate_terms(chk, "GEN_depth1_rep", profile="rep", leaf="rep", d=1, kids=2, sib=0, nodes=8)
         d2 = enumerate_terms(chk, "GEN_depth2_tiny", profile="tiny", leaf="tiny", d=2, kids=2, sib=0, nodes=8)
         d2 = [t for t in d2 if wtree.depth(t) == 2]
@@ -277,8 +356,7 @@ def run(chk):
         sims = simulate_terms(chk, int(6000 * scale), chk.seed, 10, 8, profile="full", leaf="full", d=4, kids=3, sib=3, nodes=12)
     # the documented sizing rules over-claim: TLC's counterexample to NoOverClaim is rendered by the real code below
     witness = []
-    r = tlc.mc("WidgetTree", GEN_CFG.format(sim="FALSE", profile="tiny", leaf="tiny", d=1, kids=2, sib=0, nodes=8, kinds="all")
-               .replace("INVARIANT TypeOK\nINVARIANT SizingLaws\n", "INVARIANT NoOverClaim\n"), workers=6, timeout=900)
+    r = over
     chk.add_mc("MC_NoOverClaim(counterexample expected)", r)
     if r.violated == "NoOverClaim" and r.trace:
         st = r.trace[-1].get("stack") or []
@@ -292,6 +370,12 @@ def run(chk):
         for enc in encodings_for(t, i, quick):
             jobs.append((t, enc, cols, rows))
     traces = observe_all(jobs, 4 if quick else 8)
+    # ---- histories: the same composite terms rendered again while the canvases of earlier renderings are held ----
+    comp = [t for t in witness + d1 + deep + sims if t["c"]]
+    hjobs = [(t, ENCS[i % 3], cols, rows, 6 if quick else 12, chk.seed * 104729 + i) for i, t in enumerate(comp)]
+    htraces = observe_all(hjobs, 4 if quick else 8, observe_history)
+    traces += [tr for tr in htraces if tr["build_exc"] or tr["ev"]]
+    jobs += [j for tr, j in zip(htraces, hjobs) if tr["build_exc"] or tr["ev"]]
     for tr, j in zip(traces, jobs):
         tr["cols"], tr["rows"] = j[2], j[3]
     built = [tr for tr in traces if not tr["build_exc"]]
@@ -301,7 +385,7 @@ def run(chk):
     res = validate_all(chk, built, 4 if quick else 8)
     rejected = {ti for ti, _l, why in res.rejects if "@overclaimed" in why}
     for i, tr in enumerate(built):
-        if any(tr["term"] == w for w in witness) and i not in rejected:
+        if not tr.get("hist") and any(tr["term"] == w for w in witness) and i not in rejected:
             chk.divergence("model_overclaim_not_reproduced_by_urwid", {"term": wtree.show(tr["term"]), "enc": tr["enc"]})
     _coverage(chk, built, terms)
 
@@ -315,11 +399,25 @@ def _coverage(chk, built, terms):
 
     for tr in built:
         ks = set(wtree.kinds(tr["term"]))
+        if stratum(tr["term"]) == "Text.multiline" and any(e["t"] == "render" and e["mode"] == "fixed" for e in tr["ev"]):
+            bump("stratum.Text.multiline")
         for k in ks:
             bump("kind." + k)
         bump("enc." + tr["enc"])
         bump("depth." + str(wtree.depth(tr["term"])))
+        if tr.get("hist"):
+            bump("frames.histories")
         for e in tr["ev"]:
+            if e["t"] == "held":
+                bump("frames.held_canvas_measured_again")
+            if e["t"] == "frame":
+                bump("frames." + e["op"])
+                if e["op"] == "sub" and e["hit"]:
+                    bump("frames.sub_served_from_cache")
+                if e["op"] == "sub" and e["mode"] in e["szg"] and not e["exc"]:
+                    bump("frames.sub_judged")
+                if e["op"] == "inval" and e["hit"]:
+                    bump("frames.inval_children_from_cache")
             if e["t"] != "render":
                 continue
             bump("mode." + e["mode"])
@@ -343,10 +441,13 @@ def _coverage(chk, built, terms):
     chk.cov["distinct_nontrivial"] = len(nontriv)
     chk.cov["rule"] = ("terms enumerated by TLC from spec/WidgetTree.tla (all leaves of the full alphabet, all well-formed depth<=1 terms of the tiny alphabet; "
                        "thorough: depth<=1 of the rep alphabet and depth<=2 of the tiny alphabet) plus TLC-simulated deeper terms over the full alphabets; "
-                       "each rendered in every sizing mode it reports at the size grid x both focus flags; non-trivial = distinct "
+                       "each rendered in every sizing mode it reports at the size grid x both focus flags; every composite term also in a history "
+                       "with held canvases (root, each sub-widget at the sizes its parent gave it, root again, root invalidated, held canvases "
+                       "measured again); non-trivial = distinct "
                        "(composite term, encoding, mode, size, focus) events")
     chk.cov["exhaustive"] = True
-    for need in ("mode.box", "mode.flow", "mode.fixed", "one_column", "one_row", "cursor_present", "row_with_wide_char", "row_with_zero_width_char",
+    for need in ("frames.histories", "frames.sub_judged", "frames.sub_served_from_cache", "frames.inval_children_from_cache", "frames.again",
+                 "frames.held_canvas_measured_again", "stratum.Text.multiline", "mode.box", "mode.flow", "mode.fixed", "one_column", "one_row", "cursor_present", "row_with_wide_char", "row_with_zero_width_char",
                  "enc.wide", "enc.narrow", "enc.utf8") + tuple("kind." + k for k in ("Text", "Edit", "Button", "CheckBox", "RadioButton", "SelectableIcon", "Divider", "SolidFill", "BigText",
                                                                                   "ProgressBar", "BarGraph", "Padding", "Filler", "LineBox", "AttrMap", "BoxAdapter", "WidgetDisable",
                                                                                   "Scrollable", "ScrollBar", "WidgetPlaceholder", "Pile", "Columns", "Frame", "Overlay", "GridFlow", "ListBox")):
@@ -354,7 +455,7 @@ def _coverage(chk, built, terms):
             chk.vacuity.append("driver." + need)
     for tr in built[:2] + built[-1:]:
         chk.sample({"term": wtree.show(tr["term"]), "enc": tr["enc"], "sizing": tr["sizing"], "first_event": {k: v for k, v in tr["ev"][0].items()}})
-    chk.cov["trusted_base"] = ["TLC", "vf/wtree.py build() (term -> urwid constructor calls) and observe_render()",
+    chk.cov["trusted_base"] = ["TLC", "vf/wtree.py build() (term -> urwid constructor calls), observe_render() and observe_frames() (histories with held canvases)",
                                "vf/wtree.py uwidth(): per-character widths from unicodedata (checked against wcwidth for the alphabet)",
                                "vf/tlaparse.py"]
     chk.assumptions += [
@@ -363,13 +464,18 @@ def _coverage(chk, built, terms):
         "terms are well formed by the constructor documentation (spec/WidgetTreeOps.tla ArgsOK, at least one usable mode); every mode the real sizing() reports is tried",
         "in the double-byte ('wide') mode East Asian Ambiguous characters are counted as two columns (UAX #11 legacy context), as the terminal would",
         "BigText uses glyphs the font defines",
+        "histories: a sub-widget is judged only in a mode its own sizing() reports (its parent may use it otherwise: that is the parent's over-claim); a canvas is 'held' "
+        "by keeping a reference, as the screen keeps the last frame; only _invalidate() of the root is used to force a second frame",
     ]
 
 
 def replay(chk, path):
     with open(path) as f:
         rp = json.load(f)["replay"]
-    tr = observe_term((rp["term"], rp["enc"], rp["cols"], rp["rows"]))
+    if rp.get("hist"):
+        tr = observe_history((rp["term"], rp["enc"], rp["cols"], rp["rows"], rp["hist"]["max_sub"], rp["hist"]["seed"]))
+    else:
+        tr = observe_term((rp["term"], rp["enc"], rp["cols"], rp["rows"]))
     tr["cols"], tr["rows"] = rp["cols"], rp["rows"]
     if tr["build_exc"]:
         chk.note("term no longer builds: " + tr["build_exc"])
